@@ -208,7 +208,7 @@ func replayTrace(cfg world.Config, evs []world.Event, keepLog bool) (*world.Worl
 
 func sameViolation(w *world.World, prop, clause string) *world.Found {
 	for i, f := range w.Found {
-		if f.V.Clause == clause && f.V.Has(prop) {
+		if f.V.Clause == clause && (f.V.Has(prop) || prop == "ALL") {
 			return &w.Found[i]
 		}
 	}
@@ -357,7 +357,7 @@ func worker(ps *PropSpec, from, to int64, outPath string, keepHashes bool, maxVi
 		if len(res.Found) > 0 {
 			mine := false
 			for _, f := range res.Found {
-				if has(f.Props, ps.ID) {
+				if has(f.Props, ps.ID) || ps.ID == "ALL" {
 					mine = true
 				}
 			}
@@ -479,6 +479,9 @@ func main() {
 		os.Exit(doReplay(*replay))
 	}
 	stopProp = *prop
+	if stopProp == "ALL" {
+		stopProp = ""
+	}
 	all := props()
 	ps, ok := all[*prop]
 	if !ok {
@@ -529,6 +532,9 @@ func doReplay(path string) int {
 		return 2
 	}
 	stopProp = rf.Property
+	if stopProp == "ALL" {
+		stopProp = ""
+	}
 	if rf.Property == "C19" {
 		fmt.Fprintln(os.Stderr, "C19 replay files are replayed by the concurrency engine (check C19 --replay)")
 		return 2
@@ -764,7 +770,7 @@ func parent(ps *PropSpec, tier string, seed int64, runs, workers int, verifDir s
 	for _, rr := range agg.Violating {
 		var f *FoundJSON
 		for i := range rr.Found {
-			if has(rr.Found[i].Props, ps.ID) {
+			if has(rr.Found[i].Props, ps.ID) || ps.ID == "ALL" {
 				f = &rr.Found[i]
 				break
 			}
